@@ -48,7 +48,12 @@ class AttributeModel:
         hook = prog.cls("KnownAttributeHook")
         self.method_defs = {("KnownAttributeHookCls", "get_attribute"): hook.methods["get_attribute"]}
 
-    def lookup(self, obj: Any, attr: str) -> Any:
+    def provider(self, typ: type, attr: str) -> Any:
+        """What _get_attribute_from_mro(typ, ctx, on_class=False) names as the class that provides `attr`:
+        ("missing",) | ("provider", class, is_known) | ("crash", why)"""
+        return self.lookup(typ, attr, provider_of=typ)
+
+    def lookup(self, obj: Any, attr: str, provider_of: Any = None) -> Any:
         """("missing",) | ("literal", value) | ("other", description) | ("crash", why)"""
         uninit = Obj("UninitializedValue")
 
@@ -86,6 +91,17 @@ class AttributeModel:
         holder: List[Interp] = []
         it = Interp({}, {}, (), funcs, isinstance_hook, self.method_defs, self.module_defs, globals_)
         holder.append(it)
+        if provider_of is not None:
+            fn = self.module_defs["_get_attribute_from_mro"]
+            try:
+                res = it.call_def(fn, [provider_of, ctx, False], fn)
+            except Unsupported as u:
+                raise AnchorError(f"_get_attribute_from_mro cannot be modelled: {u}")
+            except (AssertionFailed, PyRaise, ModelError) as e:
+                return ("crash", str(e))
+            if not isinstance(res, tuple) or len(res) != 3:
+                return ("crash", f"returned {res!r}")
+            return ("missing",) if res[0] is uninit else ("provider", res[1], res[2])
         fn = self.module_defs["get_attribute"]
         try:
             res = it.call_def(fn, [ctx], fn)
